@@ -4715,6 +4715,10 @@ class ResponseFuture(object):
         self.send_request()
 
     def _reprepare(self, prepare_message, host, connection, pool):
+        if self._final_exception:
+            # the request timed out (or failed) while this task was queued
+            return
+
         cb = partial(self.session.submit, self._execute_after_prepare, host, connection, pool)
         request_id = self._query(host, prepare_message, cb=cb)
         if request_id is None:
